@@ -311,15 +311,13 @@ def per_object_state(tree: ast.Module) -> tuple[list[tuple[str, str, str]], bool
             if isinstance(st, ast.AnnAssign) and isinstance(st.target, ast.Name):
                 ann = ast.unparse(st.annotation)
                 attrs.append(f'{cname}.{st.target.id}: {ann}')
-                if any(w in ann.lower() for w in ('dict', 'list', 'set[', 'mapping', 'deque', 'cache')) \
-                        and not ann.startswith(('ClassVar', 'Final')) or any(w in st.target.id.lower() for w in CACHE_WORDS):
+                if any(w in ann.lower() for w in ('dict', 'list[', 'set[', 'mapping', 'deque', 'cache')) \
+                        and not ann.startswith(('ClassVar', 'Final')):
                     out.append((cname, st.target.id, f'object attribute declared as a container: {ann[:50]}'))
             if isinstance(st, ast.Assign) and any(isinstance(t, ast.Name) and t.id == '__slots__' for t in st.targets):
                 for e in ast.walk(st.value):
                     if isinstance(e, ast.Constant) and isinstance(e.value, str):
-                        attrs.append(f'{cname}.__slots__:{e.value}')
-                        if any(w in e.value.lower() for w in CACHE_WORDS + ('seen', 'table', 'resolved', 'known')):
-                            out.append((cname, e.value, '__slots__ names a per-object table'))
+                        attrs.append(f'{cname}.__slots__:{e.value}')     # layout only: what is stored there is read below
             if not isinstance(st, (ast.FunctionDef, ast.AsyncFunctionDef)):
                 continue
             params = [a.arg for a in st.args.posonlyargs + st.args.args + st.args.kwonlyargs]
